@@ -49,10 +49,15 @@ func (w *WaterMark) Init(closer *Closer) {
 	}
 }
 
-// Begin sets the last index to the given value.
+// Begin marks index as pending and then publishes it as the last index.
+//
+// The pending count must be visible before lastIndex is: tryAdvance only looks
+// at indices <= lastIndex, and an index that is published with an empty slot
+// lets a concurrent Done move doneUntil past it.
 func (w *WaterMark) Begin(index uint64) {
-	w.setLastIndex(index)
 	w.addIndex(index, 1)
+	w.setLastIndex(index)
+	w.tryAdvance()
 }
 
 // BeginMany works like Begin but accepts multiple indices.
@@ -60,10 +65,12 @@ func (w *WaterMark) BeginMany(indices []uint64) {
 	if len(indices) == 0 {
 		return
 	}
-	w.setLastIndex(indices[len(indices)-1])
+	// Count first, publish last (see Begin).
 	for _, idx := range indices {
 		w.addIndex(idx, 1)
 	}
+	w.setLastIndex(indices[len(indices)-1])
+	w.tryAdvance()
 }
 
 // Done sets a single index as done.
